@@ -37,6 +37,14 @@ class Injected(Exception):
 class InjectedBase(BaseException):
     """Injected failure that is NOT an Exception (e.g. a cancellation-like error raised inside a node)."""
 
+    def __init__(self, node=None):
+        self.node = node
+        super().__init__(node)
+
+
+class LowLevel(OSError):
+    """What a failing node function was handling when it raised its own error (`raise Injected(...) from low_level`)."""
+
 
 # What a user function raises is not always a plain Exception subclass: the CLASS of an injected failure varies with the node, too.
 # StopIteration (a `next()` on an exhausted iterator escaping the function) is special to generators, coroutines and asyncio
@@ -142,7 +150,14 @@ def mkprobe(name, shape=None, setup=False):
         if (node is not None and node in State.faults) or name in State.fail_fns or (
                 State.fail_args and any(x in State.fail_args for x in a if isinstance(x, Sym))):
             B.ev("FEXIT", token=tok, node=node, fn=name, ok=False)
-            raise fault_for(node, base=State.fault_base)
+            exc = fault_for(node, base=State.fault_base)
+            import zlib
+
+            if zlib.crc32(("chain:%r" % (node,)).encode()) % 3 == 0:
+                # the node's exception has a cause of its own: the call still carries the NODE's exception as its cause
+                FAULT_CLASS_COUNTS["raised_from_a_lower_level_exception"] += 1
+                raise exc from LowLevel("low-level failure behind the failure of %r" % (node,))
+            raise exc
         if setup:
             base = Sym(name, a, tuple(sorted(k.items())), ("inv", next(State.inv)))
         else:
